@@ -147,6 +147,35 @@ def link_violations(m, fw):
     return out
 
 
+_refused_cache = {}
+
+
+def target_model_is_refused(w2, perms):
+    """Does a fresh build of the world the letter should lead to raise?"""
+    import json as _json
+    k = _json.dumps(w2["objects"], sort_keys=True)
+    if k not in _refused_cache:
+        try:
+            W.build(w2, perms=perms)
+            _refused_cache[k] = False
+        except Exception:  # noqa
+            _refused_cache[k] = True
+        if len(_refused_cache) > 3000:
+            _refused_cache.clear()
+    return _refused_cache[k]
+
+
+def after_noop(task):
+    """Was the previous letter of the history one that changes nothing? (structural detail for signatures)"""
+    h = task.get("history", [])
+    if not h:
+        return False
+    e = h[-1]
+    return e[0] == "lop" and (e[3] in ("getslice", "copy") or (e[3] in ("extend", "iadd") and e[4] == [[]])
+                              or (e[3] == "imul" and e[4] == [1]) or (e[3] == "setslice" and e[4][2] == [] and e[4][0] == e[4][1])
+                              or (e[3] == "delslice" and e[4][0] == e[4][1]))
+
+
 def content_equal(fw, w):
     sp = spec_links(w)
     for n in sp:
@@ -242,6 +271,13 @@ def run_task(task):
                 applied = "applied"
             elif ok_old:
                 applied = "unchanged"
+                # the operation was not performed although a Python list would have performed it: only acceptable when
+                # the target model itself is refused by the library (capacity, storage shared by two servers, ...)
+                if not target_model_is_refused(w2, task.get("perms")):
+                    res["violations"].append({"sig": {"clause": "operation-refused-although-target-model-is-valid",
+                                                      "letter": lc, "args": args_kind, "exc": live_raises.split(":")[0],
+                                                      "after_noop": str(after_noop(task))},
+                                              "detail": {"exception": live_raises, "letter": letter}})
             else:
                 applied = "neither"
                 res["violations"].append({"sig": {"clause": "exception-left-content-neither-old-nor-new", "letter": lc,
@@ -295,6 +331,7 @@ def mutators(cur, menu):
     if present is not None:
         out += [("remove", [present], "present"), ("remove_wrapper", [0], "present")]
     out += [("extend", [[]], "empty"), ("iadd", [[]], "empty"), ("imul", [0], "0"), ("imul", [1], "1"), ("imul", [2], "2"),
+            ("imul", [3], "3"), ("iadd_self", [], "self"),
             ("pop", [], "last"), ("pop", [0], "first"), ("pop", [n + 2], "out-of-range"),
             ("delitem", [0], "first"), ("delitem", [-1], "last"), ("delitem", [n + 2], "out-of-range"),
             ("delslice", [0, 1], "first"), ("delslice", [0, 0], "empty"), ("clear", [], ""),
